@@ -30,3 +30,46 @@ M("mergesort-ignores-missing", S, "                yield tuple(_row[flds.index(f
   "                yield tuple(_row[flds.index(fo)] if fo in flds else None", ["C05"])
 M("mergesort-presorted-tail-dropped", S, "        except StopIteration:\n            del shortlist[nextidx]\n            del iterators[nextidx]",
   "        except StopIteration:\n            del shortlist[nextidx]\n            del iterators[nextidx]\n            if len(iterators) == 1 and reverse:\n                return", ["C05"])
+
+B = "transform/basics.py"
+# ---- C01 ----------------------------------------------------------------------------------
+M("cut-shared-iterator", B, "    def __iter__(self):\n        return itercut(self.source, self.spec, self.missing)",
+  "    def __iter__(self):\n        if not hasattr(self, '_it'):\n            self._it = itercut(self.source, self.spec, self.missing)\n        return self._it", ["C01"])
+M("fromdicts-gen-shared-position", "io/json.py", "        position = 0\n        it = iter(self.dicts)",
+  "        position = self._cached\n        it = iter(self.dicts)", ["C01"])
+M("sort-memcache-before-sorted", S, "        rows = list(itertools.islice(it, 0, self.buffersize))\n        rows.sort(key=getkey, reverse=reverse)\n\n        # have we",
+  "        rows = list(itertools.islice(it, 0, self.buffersize))\n        if self.cache:\n            self._hdrcache = hdr\n            self._memcache = rows\n        yield_first = None\n        rows.sort(key=getkey, reverse=reverse)\n\n        # have we", ["C01"])
+M("hashjoin-lookup-consumed", "transform/hashjoins.py", "        for rrow in _rrows:\n            # start with the left row",
+  "        for rrow in [_rrows.pop(0) for _ in list(_rrows)]:\n            # start with the left row", ["C01", "C07"], nth=0)
+M("cache-serves-stale-length", "util/materialise.py", "        for row in self.cache:\n            yield row",
+  "        for row in list(self.cache)[:max(0, len(self.cache) - 1)]:\n            yield row\n        if self.cache:\n            yield self.cache[-1]\n            yield self.cache[-1]", ["C01", "C16"])
+# ---- C02 ----------------------------------------------------------------------------------
+M("cut-eager-list", B, "    # construct the transformed data\n    for row in it:\n        try:\n            yield transform(row)",
+  "    # construct the transformed data\n    for row in list(it):\n        try:\n            yield transform(row)", ["C02"], nth=0)
+M("cutview-constructor-reads", B, "    def __init__(self, source, spec, missing=None):\n        self.source = source\n        self.spec = spec",
+  "    def __init__(self, source, spec, missing=None):\n        self.source = source\n        self._n = sum(1 for _ in source)\n        self.spec = spec", ["C02"], nth=0)
+M("look-without-islice", "util/vis.py", "        table = list(islice(table, 0, limit+2))", "        table = list(table)[:limit+2]", ["C02"])
+M("select-eager", "transform/selects.py", "def iterrowselect(source, where, missing, complement):\n    it = iter(source)",
+  "def iterrowselect(source, where, missing, complement):\n    it = iter(list(source))", ["C02"])
+M("fromcsv-reads-all", "io/csv_py3.py", "                for row in reader:\n                    yield tuple(row)",
+  "                for row in list(reader):\n                    yield tuple(row)", ["C02"])
+# ---- C03 ----------------------------------------------------------------------------------
+# (addfield squares its input up with stack() first, so a missing copy there is equivalent)
+M("filldown-no-copy", "transform/fills.py", "    for row in it:\n        outrow = list(row)\n        for idx in fillindices:",
+  "    for row in it:\n        outrow = row if isinstance(row, list) else list(row)\n        for idx in fillindices:", ["C03"])
+M("fillright-no-copy", "transform/fills.py", "        outrow = list(row)", "        outrow = row if isinstance(row, list) else list(row)", ["C03"], nth=1)
+M("unpackdict-no-copy", "transform/unpacks.py", "        outrow = list(row)", "        outrow = row if isinstance(row, list) else list(row)", ["C03"])
+M("addrownumbers-inserts-in-place", B, "        outrow = list(row)", "        outrow = row if isinstance(row, list) else list(row)", ["C03"], nth=3)
+M("stack-pads-in-place", B, "            outrow = tuple(row)\n            if trim:\n                outrow = outrow[:n]",
+  "            if pad and isinstance(row, list) and len(row) < n:\n                row.extend([missing] * (n - len(row)))\n            outrow = tuple(row)\n            if trim:\n                outrow = outrow[:n]", ["C03"])
+M("cut-reused-buffer", B, "    # construct the transformed data\n    for row in it:\n        try:\n            yield transform(row)",
+  "    # construct the transformed data\n    buf = []\n    for row in it:\n        try:\n            buf[:] = transform(row)\n            yield buf", ["C03"], nth=0)
+M("annex-extends-header", B, "    outhdr = tuple(chain(*hdrs))\n    yield outhdr",
+  "    outhdr = hdrs[0]\n    for h in hdrs[1:]:\n        if isinstance(outhdr, list):\n            outhdr.extend(h)\n        else:\n            outhdr = tuple(outhdr) + tuple(h)\n    yield tuple(outhdr)", ["C03"])
+# ---- C20 ----------------------------------------------------------------------------------
+M("duplicates-bare-next", "transform/dedup.py", "    previous = None\n    previous_yielded = False",
+  "    previous = next(it)\n    previous_yielded = False", ["C20"], nth=0)
+M("intersection-needs-rows", "transform/setops.py", "    ahdr = next(ita)\n    next(itb)  # ignore b header\n    yield tuple(ahdr)\n    try:\n        a = tuple(next(ita))\n        b = tuple(next(itb))",
+  "    ahdr = next(ita)\n    next(itb)  # ignore b header\n    yield tuple(ahdr)\n    a = tuple(next(ita))\n    try:\n        b = tuple(next(itb))", ["C20"])
+M("melt-header-only-crash", "transform/reshape.py", "    for row in it:\n        k = getkey(row)",
+  "    first = next(it)\n    for row in itertools.chain([first], it):\n        k = getkey(row)", ["C20"])
